@@ -4,8 +4,8 @@ from common import *
 import decl, gen, pktcases, pktprops
 
 PID = 'C20'
-TARGETS = ['Properties/C20.vo', 'Bridge/EqBridge.vo', 'Bridge/PlumbingBridge.vo']
-KERNELS = ['G10_eq', 'G17_builder']
+TARGETS = ['Properties/C20.vo', 'Bridge/EqBridge.vo', 'Bridge/PlumbingBridge.vo', 'Bridge/InitBridge.vo']
+KERNELS = ['G10_eq', 'G17_builder', 'G15_init', 'G15b_init_structural']
 PROP_FILE = 'Properties/C20.v'
 
 
@@ -72,7 +72,18 @@ def run(tier, seed, rng):
                     fd['move'] = g.move([])
             if rng.random() < 0.3:
                 pc['fields'].append({'move': g.move([]) if rng.random() < 0.5 else None, 'body': ('em',)})
+        # user-supplied defaults that hold mutable objects (lists of packets / integers): default-built packets must not share them
+        for c, pc in table.items():
+            for fd in pc['fields']:
+                b = fd['body']
+                if b[0] == 'seq' and b[5] is None and rng.random() < 0.6:
+                    if b[1][0] == 'refpkt':
+                        fd['body'] = b[:5] + ([('pkt', b[1][1], {}) for _ in range(rng.randint(1, 2))],) + b[6:]
+                    elif b[1][0] == 'leaf' and b[1][1][0] == 'int':
+                        fd['body'] = b[:5] + ([rng.randrange(3) for _ in range(rng.randint(1, 2))],) + b[6:]
         G = pktcases.Group(table, gid)
+        for c in sorted(table):
+            G.add_extra(c, dict(op='default_pair', value=pktcases.jvalue(('pkt', c, {}))))
         vg = gen.ValGen(rng, table)
         cs = sorted(table)
         for c in cs:
@@ -104,9 +115,17 @@ def run(tier, seed, rng):
                 op['op'] = 'eq_from_value'
                 op['value'] = pktcases.jvalue(op.pop('_value'))
     records, disagreements = pktcases.run_groups(groups, 'c20')
-    failures = []
+    failures_early = []
+    failures = failures_early
     dist = dict(pairs=0, positioned=0, changed=0, other_class=0, constructed_pairs=0)
-    ex = [r for r in records if r['kind'].startswith('extra:')]
+    for r in records:
+        if r['kind'] == 'extra:default_pair' and isinstance(r['outcome'], dict) and 'ok' in r['outcome']:
+            o = r['outcome']['ok']
+            dist_pairs = 1
+            if o['changed'] and (o['eq'] or not o['ne'] or o['eq_rev']):
+                failures_early.append(dict(kind='oracle', sig='eq-default-pair', what=f"two default-constructed packets, one changed in place (lists grown, nested packets changed), still compare {o}",
+                                           classes=pktprops.class_source(groups, r['group']), cls=decl.cname(r['c'])))
+    ex = [r for r in records if r['kind'] == 'extra:eq_from_value' or r['kind'] == 'extra:eq']
     for r, (gid, c, v, ch) in zip(ex, meta):
         o = r['outcome']
         if 'ok' not in o:
